@@ -275,6 +275,18 @@ Theorem include_cycle_is_reported : forall g root bad,
 Proof. exact cycle_is_reported. Qed.
 Print Assumptions include_cycle_is_reported.
 
+(* The same, stated on routes: take ANY route of include statements that were not
+   reported from the root to a file (the first route the walk took or any other,
+   shorter or longer); that file lies on no cycle of unreported statements.  So a
+   cycle reachable from the root by some route always contains a reported
+   statement, however many routes lead to it and in whatever order they are
+   visited. *)
+Theorem include_no_unreported_cycle_on_any_route : forall g root bad,
+  validate g root = Some bad ->
+  forall k n, upath g bad k root n -> forall c, ~ upath g bad (S c) n n.
+Proof. exact no_unreported_cycle. Qed.
+Print Assumptions include_no_unreported_cycle_on_any_route.
+
 (* the hypothesis is satisfiable: a -> b -> a never finishes expanding *)
 Example two_cycle_never_expands :
   forall fuel, generate fuel [(0, [1]); (1, [0])]%N [] 0%N = None
@@ -305,4 +317,16 @@ Theorem include_depth_limit_refuted :
   validate two_paths 0%N = Some [] /\ gen_depth 100 two_paths [] 0%N = Some 57
   /\ MAX_INCLUDE_DEPTH < 57.
 Proof. vm_compute. repeat split. lia. Qed.
+
+(* Two routes to one file, the first of them too deep, and a cycle below it
+   (root -> c1 -> … -> c48 -> x, root -> x, x -> x): the too-deep statement of c48
+   is reported and x is NOT marked as seen by it, so the walk descends into x on the
+   second route and reports x's include of itself; assembly then terminates.  This
+   pins the order of the depth test and `seen.insert` in IncludeGraph::validate. *)
+Definition deep_then_short : graph :=
+  (0%N, [1%N; 49%N]) :: chain_edges 1 49 ++ [(49%N, [49%N])].
+Example deep_then_short_cycle_reported :
+  validate deep_then_short 0%N = Some [mkIE 48%N 0 false; mkIE 49%N 0 true]
+  /\ exists r, generate 60 deep_then_short [mkIE 48%N 0 false; mkIE 49%N 0 true] 0%N = Some r.
+Proof. vm_compute. split; [reflexivity|eexists; reflexivity]. Qed.
 
